@@ -215,6 +215,7 @@ pub async fn run_case(setup: String, events: String, take: bool) -> String {
                 let text = request_text(method, &cid, ft.as_deref(), tt.as_deref(), cseq, &branch, "");
                 ulog.lock().clear();
                 seen.lock().clear();
+                let wire_before = wire.lock().len();
                 let ok = inject(&endpoint, &text, source, &tp);
                 settle().await;
                 if !ok {
@@ -226,7 +227,24 @@ pub async fn run_case(setup: String, events: String, take: bool) -> String {
                 if !s.is_empty() {
                     outs.push("N".into());
                 } else if recs.is_empty() {
-                    outs.push("H".into());
+                    // nobody was offered anything: either the request is held, or the dialog has no usage at the moment and the dialog
+                    // layer answered what it released itself (404): "Z:<cseq>/<id> ..." in the order of the answers
+                    let answered: Vec<String> = wire.lock()[wire_before..]
+                        .iter()
+                        .filter(|w| w.2.starts_with(b"SIP/2.0 404"))
+                        .map(|w| {
+                            let cs = crate::tsx_client::header_lines(&w.2, "cseq").join("");
+                            let via = crate::tsx_client::header_lines(&w.2, "via").join("");
+                            let num = cs.split(':').nth(1).unwrap_or("").trim().split(' ').next().unwrap_or("").to_string();
+                            let br = via.split("branch=z9hG4bK").nth(1).unwrap_or("").split(|c| c == ';' || c == ',').next().unwrap_or("").trim().to_string();
+                            format!("{}/{}", num, br)
+                        })
+                        .collect();
+                    if answered.is_empty() {
+                        outs.push("H".into());
+                    } else {
+                        outs.push(format!("Z:{}", answered.join(" ")));
+                    }
                 } else {
                     // group per usage, preserving order
                     let mut usages: Vec<u32> = vec![];
